@@ -110,7 +110,8 @@ def handle (req : Json) : Except String Json := do
     return (mro, decl)
   let ops ← (← getArr case "steps").toList.mapM parseOp
   let bad ← match getOpt case "bad" with | some b => nats b | none => pure []
-  let s0 := initState npool decls bad
+  let silent ← match getOpt case "silent" with | some b => nats b | none => pure []
+  let s0 := initState npool decls bad silent
   let (_, revObs, branches) := ops.foldl (fun (acc : St × List Obs × List String) op =>
       let (s, l, b) := acc
       let (s1, r) := step s op
